@@ -13,8 +13,15 @@
    type must equal an annotated target exactly; a T that occurs only in the result is
    inferred from the target and cannot be inferred in synthesis position).
 
+   A variant may itself be an overloaded function (k = "set", vs = its own function
+   variants): the outer loop calls the inner set's check_call/synthesize_call, which tries
+   its variants in order and raises OverloadNoMatchError if none accepts - which the outer
+   loop suppresses like any other failure.  (The placeholder signature `() -> None` that
+   the decorator gives an overloaded function plays no role in the resolution.)
+
    A case (batch read from IOEnv.VERIF_IN) is
-     [id, vs : sequence of variants [ps : parameter types, ret : result type],
+     [id, vs : sequence of variants [k : "fn", ps : parameter types, ret : result type]
+                                  or [k : "set", vs : sequence of "fn" variants],
       args : sequence of argument forms, mode : "synth" or the annotated target type]
    types:  "nat" "int" "float" "bool" and "T" (one generic parameter per variant)
    argument forms: variables "vnat" "vint" "vfloat" "vbool",
@@ -24,7 +31,8 @@
    critical step (arity check, one argument check, result check, fall through to the
    next variant).  Invariant FirstMatch relates it to the declarative reading of the
    property: the picked variant is the least index whose signature accepts the call.
-   Terminal states print [id, pick (0 = reject), rty, trail]. *)
+   Terminal states print [id, pick (0 = reject), ipick (index inside a nested set, else 0),
+   rty, acc (per variant the acceptance of its function(s)), trail]. *)
 EXTENDS Naturals, Sequences, FiniteSets, TLC, Json, IOUtils
 
 Cases == JsonDeserialize(IOEnv.VERIF_IN)
@@ -57,50 +65,64 @@ ResultTy(v, args, mode) ==
     IF v.ret # "T" THEN v.ret
     ELSE IF BoundT(v, args) # "none" THEN BoundT(v, args)
     ELSE IF mode # "synth" THEN mode ELSE "none"
-Accepts(v, args, mode) ==
+AcceptsFn(v, args, mode) ==
     /\ Len(v.ps) = Len(args)
     /\ \A i \in 1..Len(args) : AcceptsAt(args[i], ParamTy(v, args, i))
     /\ ResultTy(v, args, mode) # "none"
     /\ mode # "synth" => ResultTy(v, args, mode) = mode
+\* an overloaded function used as a variant accepts what one of its own variants accepts
+Accepts(v, args, mode) ==
+    IF v.k = "set" THEN \E j \in 1..Len(v.vs) : AcceptsFn(v.vs[j], args, mode)
+    ELSE AcceptsFn(v, args, mode)
 
 \* ---- the resolution algorithm ---------------------------------------------------------
 VARIABLES cid,    \* case
-          vi,     \* variant being tried (1-based)
+          vi,     \* variant of the called set being tried (1-based)
+          ji,     \* variant of the nested set being tried (0 if variant vi is a plain function)
           ai,     \* 0 = arity not checked yet, k = about to check argument k, n+1 = result check
-          tb,     \* binding of the variant's T ("none" = unbound)
+          tb,     \* binding of the function's T ("none" = unbound)
           out,    \* "run" | "pick" | "reject"
-          trail   \* per abandoned variant: the step (and argument position) at which it failed,
+          trail   \* per abandoned function / nested set: where it failed (step, argument position),
                   \* and whether an earlier argument had already been accepted by coercion
-vars == <<cid, vi, ai, tb, out, trail>>
+vars == <<cid, vi, ji, ai, tb, out, trail>>
 
 C == Cases[cid]
-V == C.vs[vi]
+Outer == C.vs[vi]
+V == IF Outer.k = "set" THEN Outer.vs[ji] ELSE Outer      \* the function being tried
 N == Len(C.args)
+FirstJ(v) == IF v.k = "set" THEN 1 ELSE 0
 
 Init == /\ cid \in 1..Len(Cases)
-        /\ vi = 1 /\ ai = 0 /\ tb = "none" /\ out = "run" /\ trail = <<>>
+        /\ vi = 1 /\ ji = FirstJ(Cases[cid].vs[1]) /\ ai = 0 /\ tb = "none" /\ out = "run" /\ trail = <<>>
 
 CoercedBefore(k) == \E i \in 1..(k - 1) : Coerced(C.args[i], IF V.ps[i] = "T" THEN tb ELSE V.ps[i])
 
-\* abandon the current variant at step `why` (GuppyError suppressed) and go on
+\* abandon the current function at step `why` (GuppyError suppressed) and go on: to the next
+\* function of the nested set, or - when the nested set is exhausted (its OverloadNoMatchError,
+\* raised after synthesising the types of all arguments, is suppressed too) - to the next variant
 Abandon(why) ==
-    /\ trail' = Append(trail, [v |-> vi, at |-> why, pos |-> ai,
-                               co |-> IF ai >= 2 /\ ai <= N + 1 THEN CoercedBefore(ai) ELSE FALSE])
-    /\ IF vi < Len(C.vs)
-       THEN vi' = vi + 1 /\ ai' = 0 /\ tb' = "none" /\ out' = out
-       ELSE out' = "reject" /\ UNCHANGED <<vi, ai, tb>>
-    /\ UNCHANGED cid
+    LET e == [v |-> vi, j |-> ji, at |-> why, pos |-> ai,
+              co |-> IF ai >= 2 /\ ai <= N + 1 THEN CoercedBefore(ai) ELSE FALSE]
+        setDone == Outer.k = "set" /\ ji = Len(Outer.vs)
+        es == IF setDone THEN <<e, [v |-> vi, j |-> 0, at |-> "set", pos |-> N + 1, co |-> FALSE]>> ELSE <<e>>
+    IN /\ trail' = trail \o es
+       /\ IF Outer.k = "set" /\ ~setDone
+          THEN ji' = ji + 1 /\ ai' = 0 /\ tb' = "none" /\ UNCHANGED <<vi, out>>
+          ELSE IF vi < Len(C.vs)
+          THEN vi' = vi + 1 /\ ji' = FirstJ(C.vs[vi + 1]) /\ ai' = 0 /\ tb' = "none" /\ out' = out
+          ELSE out' = "reject" /\ UNCHANGED <<vi, ji, ai, tb>>
+       /\ UNCHANGED cid
 
-ArityOk   == out = "run" /\ ai = 0 /\ Len(V.ps) = N /\ ai' = 1 /\ UNCHANGED <<cid, vi, tb, out, trail>>
+ArityOk   == out = "run" /\ ai = 0 /\ Len(V.ps) = N /\ ai' = 1 /\ UNCHANGED <<cid, vi, ji, tb, out, trail>>
 ArityFail == out = "run" /\ ai = 0 /\ Len(V.ps) # N /\ Abandon("arity")
 
 ArgBindsT == /\ out = "run" /\ ai \in 1..N /\ V.ps[ai] = "T" /\ tb = "none"
              /\ tb' = SynthTy(C.args[ai]) /\ ai' = ai + 1
-             /\ UNCHANGED <<cid, vi, out, trail>>
+             /\ UNCHANGED <<cid, vi, ji, out, trail>>
 Expected == IF V.ps[ai] = "T" THEN tb ELSE V.ps[ai]
 ArgOk   == /\ out = "run" /\ ai \in 1..N /\ ~(V.ps[ai] = "T" /\ tb = "none")
            /\ AcceptsAt(C.args[ai], Expected)
-           /\ ai' = ai + 1 /\ UNCHANGED <<cid, vi, tb, out, trail>>
+           /\ ai' = ai + 1 /\ UNCHANGED <<cid, vi, ji, tb, out, trail>>
 ArgFail == /\ out = "run" /\ ai \in 1..N /\ ~(V.ps[ai] = "T" /\ tb = "none")
            /\ ~AcceptsAt(C.args[ai], Expected)
            /\ Abandon("arg")
@@ -112,7 +134,7 @@ ResultOk ==
        \/ C.mode # "synth" /\ Resolved \in {"none", C.mode}
     /\ out' = "pick"
     /\ tb' = IF Resolved = "none" THEN C.mode ELSE tb      \* T inferred from the target
-    /\ UNCHANGED <<cid, vi, ai, trail>>
+    /\ UNCHANGED <<cid, vi, ji, ai, trail>>
 ResultFail ==
     /\ out = "run" /\ ai = N + 1
     /\ \/ C.mode = "synth" /\ Resolved = "none"
@@ -124,11 +146,16 @@ Spec == Init /\ [][Next]_vars
 
 \* ---- properties -----------------------------------------------------------------------
 FirstMatch ==
-    /\ out = "pick"   => /\ Accepts(V, C.args, C.mode)
+    /\ out = "pick"   => /\ Accepts(Outer, C.args, C.mode)
+                         /\ AcceptsFn(V, C.args, C.mode)
                          /\ \A j \in 1..(vi - 1) : ~Accepts(C.vs[j], C.args, C.mode)
+                         /\ Outer.k = "set" => \A j \in 1..(ji - 1) : ~AcceptsFn(Outer.vs[j], C.args, C.mode)
     /\ out = "reject" => \A j \in 1..Len(C.vs) : ~Accepts(C.vs[j], C.args, C.mode)
-\* an abandoned variant is never picked later, variants are tried in order
-TrailInOrder == \A k \in 1..Len(trail) : trail[k].v = k /\ (out = "pick" => trail[k].v < vi)
+\* functions are tried in listing order (nested sets in place), an abandoned one is never picked later
+Before(a, b) == a.v < b.v \/ (a.v = b.v /\ a.j # 0 /\ (b.j = 0 \/ a.j < b.j))
+TrailInOrder ==
+    /\ \A k \in 1..(Len(trail) - 1) : Before(trail[k], trail[k + 1])
+    /\ out = "pick" => \A k \in 1..Len(trail) : Before(trail[k], [v |-> vi, j |-> IF ji = 0 THEN 0 ELSE ji])
 \* resolution is deterministic: exactly one step is possible until the outcome is known
 Deterministic == out = "run" =>
     Cardinality({a \in {"ArityOk", "ArityFail", "ArgBindsT", "ArgOk", "ArgFail", "ResultOk", "ResultFail"} :
@@ -137,9 +164,12 @@ Deterministic == out = "run" =>
           [] a = "ArgFail" -> ENABLED ArgFail [] a = "ResultOk" -> ENABLED ResultOk
           [] a = "ResultFail" -> ENABLED ResultFail}) = 1
 
+AccOf(v) == IF v.k = "set" THEN [j \in 1..Len(v.vs) |-> AcceptsFn(v.vs[j], C.args, C.mode)]
+            ELSE <<AcceptsFn(v, C.args, C.mode)>>
 Emit == out # "run" =>
     PrintT(ToJson([id |-> C.id, pick |-> IF out = "pick" THEN vi ELSE 0,
+                   ipick |-> IF out = "pick" THEN ji ELSE 0,
                    rty |-> IF out = "pick" THEN (IF V.ret = "T" THEN tb ELSE V.ret) ELSE "none",
-                   acc |-> [j \in 1..Len(C.vs) |-> Accepts(C.vs[j], C.args, C.mode)],
+                   acc |-> [j \in 1..Len(C.vs) |-> AccOf(C.vs[j])],
                    trail |-> trail]))
 =============================================================================
